@@ -32,6 +32,11 @@ func init() {
 			mp := q.Body["methodParameters"].(J)
 			heurShapeProblem(r, q)
 			heurShapeLevels(r, mp, true)
+			if r.chance(0.06) { // a weight of exactly 0 is a weight like any other (distinct from the rest: the lightest criterion)
+				w := mp["weights"].(J)
+				ks := sortedJKeys(w)
+				w[ks[r.Intn(len(ks))]] = 0.0
+			}
 			if r.chance(0.15) { // tied weights
 				w := mp["weights"].(J)
 				for _, k := range sortedJKeys(w) {
